@@ -18,7 +18,7 @@ func Harness_C02_envelope() {
 	ch := newVerifChan(s.mu, true)
 	s.Start(ch)
 
-	class := nondetChoice("record", 7)
+	class := nondetChoice("record", 9)
 	var rec json.RawMessage
 	wantCode := 0
 	wantArray := false
@@ -42,6 +42,26 @@ func Harness_C02_envelope() {
 		k := tokKind(rec)
 		assume(k != tkObject && k != tkArray && k != tkInvalid)
 		wantCode = -32700
+	}
+	if class >= 7 {
+		// notifications that cannot be delivered (unknown method), alone or in a
+		// batch of notifications: nothing to report, so nothing at all is sent
+		// (in particular no empty array)
+		bad := verifReq("", "nosuch")
+		if class == 7 {
+			ch.in <- bad
+		} else {
+			ch.in <- tokArray([]json.RawMessage{bad, verifReq("", "ping")})
+		}
+		quiesce()
+		vassert(len(ch.sent) == 0, "C01/C02/C10: notifications are never answered, not even with an empty array")
+		vassert(log.count("ping") == class-7, "the deliverable notification of the batch ran")
+		ch.in <- verifReq("7", "ping")
+		quiesce()
+		vassert(len(ch.sent) == 1 && log.count("ping") == class-6, "C02: the server keeps serving")
+		close(ch.in)
+		reach("undeliverable-notification")
+		return
 	}
 	if class >= 4 {
 		verifC02Padded(s, ch, log, class)
